@@ -241,52 +241,25 @@ def run(F, res, tier):
         res.ob("H4", "iter/" + key, "this iteration over a RandomState-hashed collection does not let the iteration order reach an answer",
                verdict, where=f.loc(t["ln"]), how=why)
     res.floor("iterations over RandomState-hashed collections in ide/syntax", n_random, 9)
-    # ---- H4b raw intern ids
-    raw = [(f.path, t["ln"]) for f, b, t in F.callers_of(lambda c: c.endswith("InternId::as_u32") or c.endswith("InternId::as_usize"))
-           if in_query_crates(f.path)]
-    okraw = all(p.startswith("ide::def::scope::dependency_order_query") for p, _ in raw)
-    res.ob("H4", "raw-intern-ids", "raw intern ids (history-dependent numbers) are read only inside dependency_order_query", okraw and bool(raw),
-           where="crates/ide/src/def/scope.rs", how=str(sorted(set(p for p, _ in raw))))
-    # raw ids are opaque node labels: they may be put into edge tuples, nothing may compute with them
-    bad_uses = []
-    n_raw = 0
-    for pth in F.with_closures("ide::def::scope::dependency_order_query"):
-        f = F.fns[pth]
-        tainted = set()
-        for b, t in f.calls():
-            c = callee(t) or callee_def(t) or ""
-            if c.endswith("InternId::as_u32") or c.endswith("InternId::as_usize"):
-                tainted.add(t["dest"]["l"])
-                n_raw += 1
-        changed = True
-        while changed:
-            changed = False
-            for b, i, st in f.stmts():
-                if st["k"] != "assign" or st["place"]["p"]:
-                    continue
-                rv = st["rv"]
-                if rv["k"] in ("use", "cast"):
-                    pl = op_place(rv["op"])
-                    if pl is not None and pl["l"] in tainted and st["place"]["l"] not in tainted:
-                        tainted.add(st["place"]["l"])
-                        changed = True
-        for b, i, st in f.stmts():
-            if st["k"] != "assign":
-                continue
-            rv = st["rv"]
-            if rv["k"] in ("bin", "un"):
-                for key in ("a", "b"):
-                    pl = op_place(rv[key]) if isinstance(rv.get(key), dict) else None
-                    if pl is not None and pl["l"] in tainted:
-                        bad_uses.append((pth, st["ln"], rv["op"]))
-        for b, t in f.calls():
-            c = FL.short(callee(t) or callee_def(t))
-            for a in t["args"]:
-                pl = op_place(a)
-                if pl is not None and not pl["p"] and pl["l"] in tainted and c not in ("Vec::push",):
-                    bad_uses.append((pth, t["ln"], c))
-    res.ob("H4", "raw-intern-ids-opaque", "inside dependency_order_query raw intern ids are only used as opaque graph-node labels (no arithmetic, comparison, min/max or range test on them)",
-           not bad_uses and n_raw >= 2, where="crates/ide/src/def/scope.rs", how="%d as_u32 reads, all flow into edge tuples" % n_raw if not bad_uses else str(bad_uses[:4]))
+    mi = F.fn("ide::base::ModuleMap::iter")
+    from lib import effects as EF
+    flds = sorted({e["field"] for e in EF.field_effects(mi, "ide::base::ModuleMap")})
+    res.ob("H4", "module-map-iter-unique", "ModuleMap::iter walks the name->file map (one entry per module name), not the file->name map in which "
+           "two files can carry the same name: what the reviewed copies in Package::visible_modules rely on", flds == ["files"], where=mi.loc(),
+           how="fields read: %s" % flds)
+    # ---- H4b raw intern ids: intern ids are numbers handed out in the order queries happened to run, so they differ
+    # between a fresh analysis and one that has a history. Query code may carry them around and compare them for
+    # equality; it may not look at the number (order, arithmetic, graph-node index, hash-independent position).
+    raw = [(f.path, t["ln"], FL.short(callee(t) or callee_def(t))) for f, b, t in F.callers_of(
+        lambda c: c.endswith("InternId::as_u32") or c.endswith("InternId::as_usize") or
+        c.endswith("From<u32>>::from") and "InternId" in c or c.endswith("From<usize>>::from") and "InternId" in c)
+        if in_query_crates(f.path) and "InternKey" not in (f.d.get("impl_trait") or "")]
+    res.ob("H4", "raw-intern-ids", "query code never reads the number inside an intern id, nor makes an id from a number (ids are history-dependent: "
+           "an order or a graph-node index taken from them differs between a fresh analysis and one with a history)", not raw,
+           where="crates/ide/src", how="no InternId::as_u32/as_usize/from(number) outside the InternKey impls" if not raw else
+           "raw id reads/constructions: %s" % sorted(set(raw))[:6])
+    keys = [p_ for p_, f in F.fns.items() if "salsa::interned::InternKey>::as_intern_id" in p_ or "InternKey>::as_intern_id" in p_]
+    res.floor("InternKey impls in crate ide (the intern machinery the rule is about exists)", len(keys), 5)
     # ---- H5
     ic = [(f.path, t["ln"], callee_def(t)) for f, b, t in F.callers_of(lambda c: "InternDatabase::intern_" in c and "lookup" not in c)
           if in_query_crates(f.path) and "GroupStorage" not in f.path and not (f.d.get("impl_trait") or "").startswith("ide::def::InternDatabase")]
